@@ -3,6 +3,8 @@ Lemmas/LabelMatGeno.lean — masked genotyping: the mask is applied by one natur
 data along the variant axis and to every variant label array.
 -/
 import PybropsModel.Lemmas.LabelMatOps
+import PybropsModel.Lemmas.LabelMatMask
+import PybropsModel.Lemmas.LabelMatFrame
 
 set_option autoImplicit false
 set_option linter.unusedVariables false
@@ -40,5 +42,102 @@ theorem genotype_masked_form [Add α] (sch : Schema) (hax : sch.vrntAx = [2]) (z
     · simp [applyK, Schema.axes, hax]
     · intro kk
       cases kk <;> simp [applyK, St.bundle, St.setBundle, Bundle.mapCols]
+
+theorem mem_of_getElem?_join {β : Type} (cs : List (Option β)) (i : Nat) (x : β)
+    (h : (cs[i]?).join = some x) : some x ∈ cs := by
+  cases hc : cs[i]? with
+  | none => rw [hc] at h; cases h
+  | some o =>
+    rw [hc] at h
+    cases o with
+    | none => cases h
+    | some y =>
+      simp only [Option.join_some, Option.some.injEq] at h
+      subst h
+      exact List.mem_of_getElem? hc
+
+theorem genotype_taxa [Add α] (zero : α) (isTrue : lab → Bool) (masked invert unphase : Bool) (s : St α lab) :
+    (genotype zero isTrue masked invert unphase s).taxa = s.taxa := by
+  unfold genotype
+  simp only []
+  cases unphase <;> cases (if masked = true then ((s.vrnt.cols[maskCol]?).join) else none) <;> rfl
+
+theorem genotype_vrnt_none [Add α] (zero : α) (isTrue : lab → Bool) (masked invert unphase : Bool) (s : St α lab)
+    (h : (if masked = true then ((s.vrnt.cols[maskCol]?).join) else none) = none) :
+    (genotype zero isTrue masked invert unphase s).vrnt = s.vrnt := by
+  unfold genotype
+  simp only [h]
+  cases unphase <;> rfl
+
+theorem genotype_vrnt_some [Add α] (zero : α) (isTrue : lab → Bool) (masked invert unphase : Bool) (s : St α lab)
+    (mcol : List lab) (h : (if masked = true then ((s.vrnt.cols[maskCol]?).join) else none) = some mcol) :
+    (genotype zero isTrue masked invert unphase s).vrnt =
+      { cols := s.vrnt.cols.map (Option.map (Np.compress (mcol.map (fun x => if invert then !isTrue x else isTrue x)))),
+        grp := s.vrnt.grp.map (fun g => regroupMasked g (mcol.map (fun x => if invert then !isTrue x else isTrue x))) } := by
+  unfold genotype
+  simp only [h]
+  cases unphase <;> rfl
+
+/-- **The three genotyping protocols keep "reported grouped ⇒ true partition".**  Taxa metadata are copied;
+    variant metadata are copied (no mask / unmasked protocol) or recounted from the mask, and the recount is a
+    true partition of the masked chromosome-group column. -/
+theorem genotype_groupedOK [BEq lab] [Add α] (sch : Schema) (zero : α) (isTrue : lab → Bool)
+    (masked invert unphase : Bool) (s : St α lab) (hcons : consistentOK sch s = true)
+    (h : groupedOK sch s = true) : groupedOK sch (genotype zero isTrue masked invert unphase s) = true := by
+  rw [groupedOK_iff] at h ⊢
+  constructor
+  · rw [grpOKk_congr sch s _ .taxa (by simp only [St.bundle]; exact genotype_taxa zero isTrue masked invert unphase s)]
+    exact h.1
+  · cases hmc : (if masked = true then ((s.vrnt.cols[maskCol]?).join) else none) with
+    | none =>
+      rw [grpOKk_congr sch s _ .vrnt (by simp only [St.bundle]; exact genotype_vrnt_none zero isTrue masked invert unphase s hmc)]
+      exact h.2
+    | some mcol =>
+      have hmask : (s.vrnt.cols[maskCol]?).join = some mcol := by
+        cases masked <;> simp at hmc
+        exact hmc
+      have hvr := genotype_vrnt_some zero isTrue masked invert unphase s mcol hmc
+      have hv := h.2
+      simp only [grpOKk, St.bundle, Kind.grpCol] at hv ⊢
+      rw [hvr]
+      cases hax : (sch.axes Kind.vrnt).isEmpty with
+      | true => simp
+      | false =>
+        rw [hax] at hv
+        simp only [Bool.false_or] at hv ⊢
+        cases hg : s.vrnt.grp with
+        | none => simp
+        | some g =>
+          rw [hg] at hv
+          simp only [Option.map_some] at hv ⊢
+          cases hc0 : (s.vrnt.cols[0]?).join with
+          | none => rw [hc0] at hv; cases hv
+          | some col0 =>
+            rw [hc0] at hv
+            simp only [] at hv
+            have hc0' : ((s.vrnt.cols.map (Option.map (Np.compress
+                (mcol.map (fun x => if invert then !isTrue x else isTrue x)))))[0]?).join
+                = some (Np.compress (mcol.map (fun x => if invert then !isTrue x else isTrue x)) col0) := by
+              simp only [List.getElem?_map]
+              cases hh : s.vrnt.cols[0]? with
+              | none => rw [hh] at hc0; cases hc0
+              | some o =>
+                rw [hh] at hc0
+                cases o with
+                | none => cases hc0
+                | some y =>
+                  simp only [Option.join_some, Option.some.injEq] at hc0
+                  subst hc0
+                  rfl
+            rw [hc0']
+            simp only []
+            obtain ⟨a, ha⟩ : ∃ a, a ∈ sch.axes Kind.vrnt := by
+              cases hl : sch.axes Kind.vrnt with
+              | nil => rw [hl] at hax; simp at hax
+              | cons a _ => exact ⟨a, by simp⟩
+            have hcl := colsLen_of_consistent hcons .vrnt a ha
+            have l1 := hcl mcol (mem_of_getElem?_join _ _ _ hmask)
+            have l2 := hcl col0 (mem_of_getElem?_join _ _ _ hc0)
+            exact partitionOK_regroupMasked g col0 _ (by rw [List.length_map, l1, l2]) hv
 
 end LabelMat
